@@ -501,3 +501,19 @@ impl crate::vm::VM {
         }
     }
 }
+
+// ---- heap-limit checks (C10): every ensure_heap_capacity call reports what was asked and whether it fits.
+// The observer is a plain function pointer so that the harness can append to its own allocation-order log
+// (the one its global allocator writes to) without allocating.
+thread_local! {
+    static HEAP_CHECK_OBSERVER: Cell<Option<fn(u64, bool)>> = const { Cell::new(None) };
+}
+pub fn heap_check_observer_set(f: Option<fn(u64, bool)>) {
+    HEAP_CHECK_OBSERVER.with(|o| o.set(f));
+}
+#[inline]
+pub fn heap_check_note(additional: u64, fits: bool) {
+    if let Some(f) = HEAP_CHECK_OBSERVER.with(|o| o.get()) {
+        f(additional, fits);
+    }
+}
